@@ -5,7 +5,7 @@ PROPS["C07"] = P(
     "in one of 18 monomorphic variants (words u8/u16/u32/u64/usize x Box<[W]>/BitFieldVec<W> x FuseLge3Shards, FuseLge3NoShards with 128- and 64-bit signatures, FuseLge3FullSigs x key type) and a builder configuration "
     "(expected_num_keys absent/exact/n/10/0/n-1/n+1/2n/8n/800000/10^8, max_num_threads 1/2/3/8/16, offline, low_mem None/false/true, seed, log2_buckets 0/4/8/10, eps 0.001/0.01/0.1). "
     "After every Ok: len() and get(k_i) for ALL pairs, get_unaligned for all pairs when the bit width satisfies its documented precondition, 200..10^4 non-member queries (result ignored, run for the UB checks). "
-    "Err on distinct keys, a panic, or more than 64 rewinds of the key/value lender (bounded progress, counted by the harness's lender, which refuses the 65th rewind) are violations; a case running 600 s is a hang violation. "
+    "Err on distinct keys, a panic, or exceeding the attempt bound (bounded progress: the harness's lender counts rewinds and refuses the next one after 20000 attempts for n <= 5000 and after 200 for larger n, which stops the build; the pinned tree legitimately needs hundreds of attempts for many n between 100 and 1200, so successful builds needing more than the design's nominal 64 attempts are only counted, see notes c07_counters and notes/C07-defects.md) are violations; a case running 600 s is a hang violation. "
     "Strata: every n in 0..=300 for each shard/edge logic; all hint kinds at n in 0,1,2,3,10,100,101,1000,10^4 with default knobs; regime edges 99/100/101/49999/50000/99999/100000/100001/200000 "
     "(thorough: 199999/399999/400000/799999/800000/800001/1.5M) x logic x hint; multi-shard sizes x thread count x low_mem x too-small hint; every variant x value kind x n in 0,1,2,7,64,1000,20000; "
     "thorough UBC only: 12M (two logics), 3M and 1.5M offline; random configurations on top. Debug builds stay at n <= 200000, ASAN/TSAN at n <= 100000. "
@@ -16,7 +16,7 @@ PROPS["C07"] = P(
     hang_limit=600,
     level_text="Exploration: thousands of real VBuilder runs over a stratified grid of key counts (every n up to 300, all regime switches), key types, value widths, backends, signature types, shard/edge logics and builder knobs, "
     "each followed by a check of every supplied pair against the generated list, in a debug build (overflow checks, debug assertions, std UB checks) and a release build with -Zub-checks; thorough adds ASan, TSan (parallel shard solver) and sizes up to 1.2*10^7. "
-    "Right level because the property quantifies over all key sets x configurations x schedules: only sampling with a total oracle reaches it; termination is observed as bounded progress (at most 64 attempts), not proved.",
+    "Right level because the property quantifies over all key sets x configurations x schedules: only sampling with a total oracle reaches it; termination is observed as bounded progress (attempt bound 20000 for n <= 5000, 200 above), not proved.",
     level_note="Trusted: the injective key generators and the value functions of the harness (the oracle), the lender that serves them and counts rewinds. Not covered: key sets and configurations not generated; "
     "n above 1.2*10^7 (so multi-shard peeling without LGE, which needs >= 2*10^7 keys, and the >2^33-key local-signature dedup are never reached); the builder cannot run under Miri (thread priorities); "
     "thread schedules are whatever the OS produced (TSan watches them in thorough); get_by_sig is not observable from outside (seed is private); the wall-clock rule of the design is replaced by the 600 s hang limit.",
